@@ -13,10 +13,26 @@ def run(tier):
                      'distinct = outcome classes observed per engine/base')
     gen.explore(run, PID, tier)
     e3.explore_all(run, PID, tier, quick_bases=('B0-single-wage', 'B2-investor', 'B6-nc'))
+    # one-line priority deviations of the attempt order (file-driven), in parallel over (base, line, first/last)
+    names = ('B0-single-wage', 'B2-investor', 'B7-dense', 'B11-parent-foreign-dividends') if tier == 'quick' else [b.name for b in e3.BASES]
+    items = [it for year in (2021, 2022, 2023) for b in e3.bases_for(year) if b.name in names for it in e3mon.boost_items(year, b)]
+    n = 0
+    for it, errs in zip(items, runner.pmap(e3mon.boost_work, items)):
+        n += 1
+        for kind, msg in errs:
+            if kind in ('not-a-fixed-point', 'stale-read', 'unreadable'):
+                run.violation(f'{PID}|e3-boost|{it[0]}|{kind}|{msg[:70]}', dict(engine='boost', item=list(it)), msg)
+    run.count('e3.boost_schedules', n)
+    run.evaluations += n
+    run.transitions += n
+    run.traces += n
     return run.finish()
 
 
 def replay(case):
+    if case.get('engine') == 'boost':
+        errs = e3mon.boost_work(tuple(case['item']))
+        return (not errs), (str(errs[:1]) if errs else 'passes')
     if case.get('engine') == 'e3':
         return _common.e3_replay(PID, case)
     return _common.gen_replay(PID)(case)
